@@ -16,7 +16,9 @@
   code does not guard (`end.x - C`, `min(end.x-start.x, C)`, the header numbers) is `Int` and is
   checked before use as an index.  Conditions and constants come from `GIV.Gen.Diff`.
 
-  Deviations from a literal transcription (tied by the correspondence run):
+  Deviations from a literal transcription (tied by the correspondence run, and — since `lines`, `tgs` and `Diff` are
+  translated from the source on every run — each one a proved equivalence with the literal translation:
+  GIV/Lemmas/DiffGo*.lean, `go_tgs_eq`, `go_Diff_eq`):
     * slices are checked against `len`, Go checks against `cap` — the model is stricter, and
       `diffHunks_ok` shows the check never fires;
     * the forward expansion loop (which cannot panic) is written as a common-prefix length;
